@@ -26,6 +26,8 @@ type Parser struct {
 	errors      []ParseError
 	defaultYear int
 	inputLen    int
+	// comment line met where a posting was expected; belongs to the transaction
+	lineComment *ast.Comment
 }
 
 func Parse(input string) (*ast.Journal, []ParseError) {
@@ -135,6 +137,10 @@ func (p *Parser) parseTransaction() *ast.Transaction {
 		if posting != nil {
 			tx.Postings = append(tx.Postings, *posting)
 		}
+		if p.lineComment != nil {
+			tx.Comments = append(tx.Comments, *p.lineComment)
+			p.lineComment = nil
+		}
 		if p.current.Type == TokenNewline {
 			p.advance()
 		}
@@ -236,7 +242,8 @@ func (p *Parser) parsePosting() *ast.Posting {
 	p.advance()
 
 	if p.current.Type == TokenComment {
-		p.parseComment()
+		comment := p.parseComment()
+		p.lineComment = &comment
 		return nil
 	}
 
